@@ -117,6 +117,166 @@ fn slice_lru(a: &Args, t: &mut Trace) {
     }
 }
 
+/// exhaustive closure of small RawLRU configurations (caps 1..=a.n)
+fn slice_lru_bfs(a: &Args, t: &mut Trace) {
+    for cap in 1..=a.n {
+        let nk = cap + 2;
+        let mut al: Vec<Ints> = Vec::new();
+        for k in 0..nk as i128 {
+            al.push(vec![0, k, 10 * k + 1]);
+            al.push(vec![1, k]);
+            al.push(vec![6, k]);
+        }
+        al.push(vec![0, 0, 2]);
+        al.push(vec![2, 0, 1, 2]);
+        al.push(vec![2, 1, 0, 0]);
+        al.push(vec![3, 0]);
+        al.push(vec![4, 1, 1, 12]);
+        al.push(vec![5, 0]);
+        al.push(vec![7]);
+        al.push(vec![8]);
+        al.push(vec![10]);
+        for n in 0..=(cap + 1) as i128 {
+            al.push(vec![11, n]);
+        }
+        al.push(vec![12]);
+        al.push(vec![13]);
+        al.push(vec![14, 1, 7]);
+        al.push(vec![15, 0, 0]);
+        al.push(vec![16, 0, 1]);
+        al.push(vec![16, 1, 11]);
+        al.push(vec![17, 0, 1, 1, 2]);
+        al.push(vec![18, 1, 11]);
+        al.push(vec![19]);
+        al.push(vec![20, 1, 7]);
+        al.push(vec![21]);
+        al.push(vec![22, 0, 0]);
+        al.push(vec![23]);
+        al.push(vec![25]);
+        al.push(vec![26]);
+        // full forward traversal with every iterator kind
+        for kind in 0..12i128 {
+            let n = (cap + 1) as i128;
+            let mut v = vec![24, kind, n, 0, 0];
+            for i in 0..n {
+                v.extend([i % 2, 0, 0]);
+            }
+            al.push(v);
+        }
+        let cfg = [cap as i128, 1];
+        let id = format!("lrubfs-c{}", cap);
+        let states = bfs(
+            t,
+            &id,
+            0,
+            &cfg,
+            "ctor=3 hasher=3",
+            &|| mk_lru(cap as usize, 3, 3),
+            &al,
+            a.len as usize,
+            a.shard,
+            &tag,
+        );
+        t.count(&format!("bfs_states_cap{}_{}", cap, states));
+    }
+}
+
+/// build the subject a case line describes: `kind`, `cfg` and the `X` meta line (`key=value` words)
+pub fn mk_subject(kind: u32, cfg: &[i128], meta: &std::collections::HashMap<String, u64>) -> Box<dyn Subject> {
+    let m = |k: &str| meta.get(k).cloned().unwrap_or(0);
+    match kind {
+        0 => {
+            let ctor = if meta.contains_key("ctor") { m("ctor") } else if cfg[1] != 0 { 3 } else { 1 };
+            mk_lru(cfg[0] as usize, ctor, m("hasher"))
+        }
+        _ => panic!("unknown kind"),
+    }
+}
+
+/// replay every case of a case file (same format as a trace; results in it are ignored)
+fn slice_replay(a: &Args, t: &mut Trace) {
+    let path = a.corpus.clone().expect("--corpus <file or dir>");
+    let mut files = Vec::new();
+    let md = std::fs::metadata(&path).expect("corpus path");
+    if md.is_dir() {
+        let mut stack = vec![std::path::PathBuf::from(&path)];
+        while let Some(d) = stack.pop() {
+            for e in std::fs::read_dir(&d).unwrap() {
+                let e = e.unwrap().path();
+                if e.is_dir() {
+                    stack.push(e);
+                } else if e.extension().map(|x| x == "case").unwrap_or(false) {
+                    files.push(e);
+                }
+            }
+        }
+        files.sort();
+    } else {
+        files.push(std::path::PathBuf::from(&path));
+    }
+    struct Case {
+        id: String,
+        kind: u32,
+        cfg: Ints,
+        meta: String,
+        ops: Vec<Ints>,
+    }
+    for f in files {
+        let text = std::fs::read_to_string(&f).unwrap();
+        let mut cases: Vec<Case> = Vec::new();
+        for line in text.lines() {
+            let line = line.trim();
+            if let Some(rest) = line.strip_prefix("C ") {
+                let w: Vec<&str> = rest.split_whitespace().collect();
+                cases.push(Case {
+                    id: w[0].to_string(),
+                    kind: w[1].parse().unwrap(),
+                    cfg: w[2..].iter().map(|x| x.parse().unwrap()).collect(),
+                    meta: String::new(),
+                    ops: Vec::new(),
+                });
+            } else if let Some(rest) = line.strip_prefix("X ") {
+                if let Some(c) = cases.last_mut() {
+                    c.meta = rest.to_string();
+                }
+            } else if let Some(rest) = line.strip_prefix("O ") {
+                let opstr = rest.split('|').next().unwrap();
+                let op: Ints = opstr.split_whitespace().map(|x| x.parse().unwrap()).collect();
+                if op.first() == Some(&99) || op.first() == Some(&98) {
+                    continue;
+                }
+                if let Some(c) = cases.last_mut() {
+                    c.ops.push(op);
+                }
+            }
+        }
+        for (ci, c) in cases.iter().enumerate() {
+            if (ci as u64) % a.shard.1 != a.shard.0 {
+                continue;
+            }
+            let mut meta = std::collections::HashMap::new();
+            for w in c.meta.split_whitespace() {
+                if let Some((k, v)) = w.split_once('=') {
+                    if let Ok(v) = v.parse::<u64>() {
+                        meta.insert(k.to_string(), v);
+                    }
+                }
+            }
+            let ops = c.ops.clone();
+            run_case(
+                t,
+                &c.id,
+                c.kind,
+                &c.cfg,
+                &c.meta,
+                &|| mk_subject(c.kind, &c.cfg, &meta),
+                &mut scripted(ops),
+                &tag,
+            );
+        }
+    }
+}
+
 fn main() {
     // panics are expected outcomes for some slices: keep stderr quiet
     std::panic::set_hook(Box::new(|_| {}));
@@ -124,6 +284,8 @@ fn main() {
     let mut t = Trace::create(&a.out);
     match a.slice.as_str() {
         "lru" => slice_lru(&a, &mut t),
+        "replay" => slice_replay(&a, &mut t),
+        "lru_bfs" => slice_lru_bfs(&a, &mut t),
         s => {
             eprintln!("unknown slice {}", s);
             std::process::exit(2);
